@@ -14,3 +14,6 @@ import Sidetree.Jwk
 import Sidetree.Props.C04
 import Sidetree.Props.C05
 import Sidetree.Props.C06
+import Sidetree.Patch
+import Sidetree.Validator
+import Sidetree.Props.C13
